@@ -119,6 +119,8 @@ pub(crate) struct Gen<'a> {
     /// some steps send two or three commands of one connection in one TCP segment
     pub pipe: bool,
     no_settle: bool,
+    /// all pre-registered connections join one channel in the set-up
+    pub big_channel: bool,
 }
 
 /// the short form of a full list mask, if it has one: n!*@* -> n, n!*@h -> n@h, n!u@* -> n!u
@@ -154,11 +156,20 @@ impl<'a> Gen<'a> {
     pub(crate) fn new(seed: u64, cfg: &SimConfig, prof: &'a Profile) -> Gen<'a> {
         let mut r = Rng::new(seed);
         let n = r.range(prof.conns.0, prof.conns.1);
-        Gen { r, m: Model::new(cfg), prof, actions: vec![], uniq: 0, n_conns_target: n, exclude: vec![], last_labels: vec![], last_conn: None, last_line: String::new(), follow_rate: (1, 3), frag: false, pipe: false, no_settle: false }
+        Gen { r, m: Model::new(cfg), prof, actions: vec![], uniq: 0, n_conns_target: n, exclude: vec![], last_labels: vec![], last_conn: None, last_line: String::new(), follow_rate: (1, 3), frag: false, pipe: false, no_settle: false, big_channel: false }
     }
 
     fn text(&mut self) -> String {
         self.uniq += 1;
+        if self.r.chance(1, 12) {
+            // blank-free texts that begin with a colon (sent as "::)" - the relay must keep the colon), or are a lone colon
+            return match self.r.below(4) {
+                0 => format!(":){}", self.uniq),
+                1 => format!("::{}", self.uniq),
+                2 => ":".to_string(),
+                _ => format!(":-){}:", self.uniq),
+            };
+        }
         let extras = ["", " with spaces", " a:b colon", " :lead", " żółć", "  two  blanks ", " tail:"];
         format!("t{}{}", self.uniq, extras[self.r.below(extras.len())])
     }
@@ -173,13 +184,18 @@ impl<'a> Gen<'a> {
         self.m.conns[c].nick.clone().unwrap_or_default()
     }
     fn pick_nick_pool(&mut self) -> String {
-        if self.r.chance(1, 25) {
+        if self.r.chance(1, 20) {
             // nicknames at and beyond the advertised NICKLEN (the server accepts any length); they share a 200-character prefix
             let base = format!("L{}", "o".repeat(199));
-            return match self.r.below(6) {
+            return match self.r.below(9) {
                 0 => base,
                 1 => format!("{}y", base),
                 2 => format!("{}{}", base, "z".repeat(30)),
+                // wildcard characters are legal in a nickname too: as a WHO/WHOIS argument such a nickname is a mask
+                // that matches other users as well
+                6 => "?nn".to_string(),
+                7 => "b?b".to_string(),
+                8 => "a*".to_string(),
                 // legal for this server: only '.', ',', ':' and a leading '#'/'&' are forbidden in a nickname
                 3 => "lu!cki".to_string(),
                 4 => "at@sign".to_string(),
@@ -562,9 +578,17 @@ impl<'a> Gen<'a> {
         let n = std::cmp::min(self.prof.pre_register, self.n_conns_target);
         for i in 0..n {
             let c = self.open_conn();
-            let nick = NICKS[i % NICKS.len()].to_string();
+            let nick = if i < NICKS.len() { NICKS[i].to_string() } else { format!("m{}", i) };
             let user = format!("u{}", i);
             self.register(c, &nick, &user);
+        }
+        if self.big_channel {
+            // a channel with more members than fit on one 353 line (the server puts 20 names on a line)
+            for c in 0..n {
+                if self.m.conns[c].registered {
+                    self.say(c, "JOIN #big");
+                }
+            }
         }
     }
 
@@ -972,8 +996,9 @@ impl<'a> Gen<'a> {
                     Some(ch) if self.r.chance(5, 6) => ch,
                     _ => self.pick_chan(),
                 };
-                let line = match self.r.below(4) {
+                let line = match self.r.below(5) {
                     0 => format!("PART {} :{}", ch, self.text()),
+                    4 => format!("PART {} :", ch),
                     1 => {
                         let other = self.pick_chan();
                         if other != ch {
@@ -1000,7 +1025,12 @@ impl<'a> Gen<'a> {
                     };
                     vs.push(v);
                 }
-                let line = if self.r.chance(1, 2) { format!("KICK {} {} :{}", ch, vs.join(","), self.text()) } else { format!("KICK {} {}", ch, vs.join(",")) };
+                let line = match self.r.below(7) {
+                    0..=2 => format!("KICK {} {} :{}", ch, vs.join(","), self.text()),
+                    // an explicitly empty comment is a comment (relayed as given), not a missing one
+                    3 => format!("KICK {} {} :", ch, vs.join(",")),
+                    _ => format!("KICK {} {}", ch, vs.join(",")),
+                };
                 self.say(c, &line)
             }
             K::Topic => {
@@ -1343,6 +1373,26 @@ impl<'a> Gen<'a> {
             }
             K::Die => {
                 let line = if self.r.chance(1, 2) { "DIE".to_string() } else { format!("SQUIT {} :bye", self.m.cfg.name) };
+                let is_oper = self.m.users.get(&me).map_or(false, |u| u.modes.o);
+                if is_oper && self.r.chance(1, 2) {
+                    // one or two KILLs and the DIE in one segment: users that are already being disconnected are still in
+                    // the server's tables when DIE goes through them - every session must end all the same
+                    let mut acts = vec![];
+                    let others: Vec<String> = self.m.users.keys().filter(|n| **n != me).cloned().collect();
+                    let mut victims: Vec<String> = vec![];
+                    for _ in 0..self.r.range(1, 2) {
+                        if !others.is_empty() {
+                            let v = others[self.r.below(others.len())].clone();
+                            // (distinct victims: what a second KILL of a user who is still being disconnected answers is not specified)
+                            if !victims.contains(&v) {
+                                acts.push(Action::line(c, &format!("KILL {} :before the end", v)));
+                                victims.push(v);
+                            }
+                        }
+                    }
+                    acts.push(Action::line(c, &line));
+                    return self.emit(acts);
+                }
                 self.say(c, &line)
             }
             K::Wallops => {
